@@ -194,13 +194,19 @@ def run_chunk_case(unit, scratch, case, elems):
 
 
 # ------------------------------------------------------------------ API level
-def api_case(rng, path, fmt, ty, n, elems, long4=False, via_cgio=False, grow=0):
-    """script + oracle expectations (list of (line index, expected line or predicate name))"""
+def api_case(rng, path, fmt, ty, n, elems, long4=False, via_cgio=False, grow=0, prior=()):
+    """script + oracle expectations (list of (line index, expected line or predicate name)).
+    prior = formats of files created (and closed again) earlier in the same process: what a file is must not depend on
+    which files the process handled before it"""
     w = TYPES[ty]
     ops, exp = [], []
 
     def add(op, e):
         ops.append(op); exp.append(e)
+    for k, pf in enumerate(prior):
+        add("open %s.pre%d NEW %s" % (path, k, pf), "open err=-1")
+        add("fmt", "fmt %s err=-1" % resolve(pf))
+        add("close", "close err=-1")
     add("open %s NEW %s" % (path, fmt), "open err=-1")
     add("fmt", "fmt %s err=-1" % resolve(fmt))
     if long4:
@@ -302,16 +308,17 @@ def raw_oracle(path, fmt, ty, mem, long4):
 
 
 # ------------------------------------------------------------------ the check
-def shrink_api(api, path, fmt, ty, elems, long4, via, seedrng_state):
+def shrink_api(api, path, fmt, ty, elems, long4, via, seedrng_state, prior=()):
     """smaller n with the same failure? (re-generates the transfer pattern; keeps the first failing size)"""
     import random
     for n in (1, 2, 3, 5, 8):
         if n >= len(elems):
             break
         rng = random.Random(12345)
-        ops, exp, mem = api_case(rng, path, fmt, ty, n, elems[:n], long4, via)
-        if os.path.exists(path):
-            os.unlink(path)
+        ops, exp, mem = api_case(rng, path, fmt, ty, n, elems[:n], long4, via, 0, prior)
+        for q in [path] + ["%s.pre%d" % (path, k) for k in range(len(prior))]:
+            if os.path.exists(q):
+                os.unlink(q)
         lines, oc = vlib.run_impl(api, "\n".join(ops) + "\n")
         bad = api_oracle(ops, exp, lines)
         if bad or oc != "ok":
@@ -437,15 +444,17 @@ def run(ck):
                                     "model": (d[1] or "")[:160] if d else None, "impl": (d[2] or "")[:160] if d else None})
 
     # ---- API level
-    def one_api(fmt, ty, n, long4=False, via=False, large=False, grow=0):
+    def one_api(fmt, ty, n, long4=False, via=False, large=False, grow=0, prior=()):
         path = os.path.join(ck.work, "f_%s_%s_%d%s.adf" % (fmt, ty, n, "_l4" if long4 else ""))
-        if os.path.exists(path):
-            os.unlink(path)
+        for q in [path] + ["%s.pre%d" % (path, k) for k in range(len(prior))]:
+            if os.path.exists(q):
+                os.unlink(q)
+        dist["api_prior_files"] = dist.get("api_prior_files", 0) + len(prior)
         elems = fast_elems(ty, n, ck.rng) if large else rand_elems(ty, n, ck.rng)
         if not large:
             b = boundary_elems(ty, ck.rng)
             elems[:min(n, len(b))] = b[:n]
-        ops, exp, mem = api_case(ck.rng, path, fmt, ty, n, elems, long4, via, grow)
+        ops, exp, mem = api_case(ck.rng, path, fmt, ty, n, elems, long4, via, grow, prior)
         dist["api_multichunk"] = dist.get("api_multichunk", 0) + (1 if grow and n >= 4 else 0)
         text = "\n".join(ops) + "\n"
         lines, oc = vlib.run_impl(api, text, timeout=300)
@@ -468,7 +477,7 @@ def run(ck):
             elif not found:
                 raw_bad = "the %s packing of the data does not occur in the file" % resolve(fmt)
         if bad or oc != "ok" or raw_bad:
-            sops, sbad = shrink_api(api, path, fmt, ty, elems, long4, via, None) if (bad or oc != "ok") else (None, None)
+            sops, sbad = shrink_api(api, path, fmt, ty, elems, long4, via, None, prior) if (bad or oc != "ok") else (None, None)
             ck.violation({"level": "api", "format": fmt, "type": ty, "n": n if not sops else None, "long4_header": long4,
                           "script": [o if len(o) < 3000 else o[:160] + "...(%d chars)" % len(o) for o in (sops or ops)],
                           "detail": sbad or bad or raw_bad, "outcome": oc,
@@ -481,8 +490,9 @@ def run(ck):
             d = vlib.first_divergence(mlines, lines)
             corr_broken.append({"level": "api", "format": fmt, "type": ty, "n": n, "long4": long4, "op": ops[d[0]][:120] if d and d[0] < len(ops) else None,
                                 "model": (d[1] or "")[:160] if d else None, "impl": (d[2] or "")[:160] if d else None})
-        if os.path.exists(path):
-            os.unlink(path)
+        for q in [path] + ["%s.pre%d" % (path, k) for k in range(len(prior))]:
+            if os.path.exists(q):
+                os.unlink(q)
         return True
 
     if not ck.violations:
@@ -504,6 +514,15 @@ def run(ck):
                     ok = ok and one_api(fmt, ty, ck.rng.choice([12, 30, 61]), grow=ck.rng.choice([1, 2]), via=(ck.rng.random() < 0.3))
             for fmt in ("IEEE_BIG_32", "IEEE_LITTLE_32"):
                 ok = ok and one_api(fmt, "I8", 20, long4=True, grow=2)
+        # a file is what it was created as whatever the process created before it: every format after one and after two
+        # earlier files of other formats
+        if ok:
+            for fmt in FORMATS:
+                others = [f for f in FORMATS if f != fmt]
+                for k in ((1, 2) if not big else (1, 2, 3)):
+                    prior = [ck.rng.choice(others) for _ in range(k)]
+                    ty = ck.rng.choice(list(TYPES))
+                    ok = ok and one_api(fmt, ty, ck.rng.choice([3, 9, 20]), prior=prior, via=(ck.rng.random() < 0.3))
         # long = 4 foreign headers on the two 32-bit formats; a lower-case / prefix spelling of the names
         if ok:
             for fmt in ("IEEE_BIG_32", "IEEE_LITTLE_32"):
